@@ -124,6 +124,8 @@ def main():
     for c in cases[:2]:
         ck.sample({"state": c["state"], "locs": c["locs"], "ops": c["ops"][:8]})
     remrule_fault_phase(ck, lr)
+    # an overwrite refused by the add hook: the stored rule stays stored, listed, enabled as it was AND dispatched
+    refused_hook_phase(ck, lr, ck.rng, 250 if not ck.thorough else 6000)
     lr.finish_cov("lifecycle scripts over 3 rule ids in a location with or without a parent: add / overwrite (by a rule, by a plain fact) / remove / disable / enable (locally, for an inherited rule) / "
                   "remove the flag fact / reload / clear, interleaved with events, finally (30%) the location is disabled and every operation is tried; both states; dispatch is compared with the "
                   "specification 'stored, unexpired, non-scheduled, not disabled in the event's location, when matches'")
